@@ -1,6 +1,6 @@
 (** C11 -- slice_to_dataset preserves every selected element with its coordinates. *)
 From Coq Require Import List Arith Lia Bool Sorted.
-Require Import V.Base.ListAux V.Base.Radix V.Usid.AncBuild V.Usid.Grid V.Usid.SelEnum V.Usid.SliceDset.
+Require Import V.Base.ListAux V.Base.Radix V.Usid.AncBuild V.Usid.Grid V.Usid.SelEnum V.Usid.SliceDset V.Usid.UnitValues V.Usid.SliceUnit.
 Import ListNotations.
 
 (** The arithmetic core, for any number of dimensions, any sizes, any per-dimension selections: the rows whose every
@@ -63,6 +63,18 @@ Theorem C11_dropped_dimension_is_constant :
   src_index s (nth j (side_rows s) 0) p = nth 0 (nth (nth p (ss_so s) 0) (ss_ch s) []) 0.
 Proof. exact dropped_dimension_constant. Qed.
 Print Assumptions C11_dropped_dimension_is_constant.
+
+(** The Dimension descriptors themselves: along the p-th fastest dimension the kept rows of the sliced ancillary matrices
+    carry the chosen indices; get_unit_values on that row (values = any function of the index) returns the values of the
+    chosen indices in increasing index order -- what _get_dims_for_slice hands to the writer (composition with the C09
+    theorem about rows of the tile / repeat form). *)
+Theorem C11_unit_values_of_the_sliced_matrices :
+  forall (V : Type) (dv : V) (f : nat -> V) (s : sside) (p : nat), wf_side s -> p < length (ss_so s) ->
+  let chosen := nth (nth p (ss_so s) 0) (ss_ch s) [] in
+  let rowinds := map (fun j => src_index s (nth j (side_rows s) 0) p) (seq 0 (prod (lens_of s))) in
+  unit_values_row dv rowinds (map f rowinds) = Some (map f chosen).
+Proof. exact @sliced_unit_values. Qed.
+Print Assumptions C11_unit_values_of_the_sliced_matrices.
 
 (** The writer before repair 9af1ddc received the remaining dimensions in LABEL order. Witness: sizes (2, 3), second
     dimension fastest, both kept whole: label order assigns to kept row 1 the coordinates (1, 0), its source coordinates
